@@ -263,6 +263,8 @@ class Oracle:
                 if o is None:
                     continue
                 exp = self.expired_at.get(a)
+                if a in self.placeholder and not o[3] and o[0] == 0:
+                    continue                       # LS placeholder without data: not judged
                 if exp is not None and (self.last_reception is None or self.last_reception <= exp):
                     bad.append((f"entry of {a} visible at {now} although expired at {exp} (no reception since)", "C08-KF1"))
                 elif a in self.placeholder:
@@ -358,18 +360,25 @@ def gen_history(rng, n_ops):
             "ops": ops}
 
 
-def model_lines(case):
-    lines = [f"cfg {case['self']} {case['lifetime_s'] * 1000} {case['dpl']}"]
+def model_lines(case, eager=False):
+    """model driver lines of a history as (line, compared?) pairs.  `eager`: the code under test purges inside
+    get_entry/get_neighbours (C08-KF1 repaired) - the harness observes after every op, so the model purges there too."""
+    lines = [(f"cfg {case['self']} {case['lifetime_s'] * 1000} {case['dpl']}", True)]
+    now = case["base"]
     for op in case["ops"]:
         if op[0] == "pkt":
             _, kind, a, T, lat, lon, sn, now = op
-            lines.append(f"pkt {kind} {a} {T % W} {lat} {lon} {sn} {now}")
+            lines.append((f"pkt {kind} {a} {T % W} {lat} {lon} {sn} {now}", True))
         elif op[0] == "tick":
-            lines.append("nbrs")             # a pure clock advance does not touch the table
+            now = op[1]
+            lines.append(("nbrs", True))             # a pure clock advance does not touch the table
         elif op[0] == "ref":
-            lines.append(f"ref {op[1]}")
+            now = op[1]
+            lines.append((f"ref {op[1]}", True))
         elif op[0] == "ens":
-            lines.append(f"ens {op[1]}")
+            lines.append((f"ens {op[1]}", True))
+        if eager:
+            lines.append((f"ref {now}", False))
     return lines
 
 
@@ -461,8 +470,9 @@ def flush_model(ctx):
         return
     lines = []
     for case, _ in batch:
-        lines += model_lines(case)
-    mo = ctx.model("LocT", lines)
+        lines += model_lines(case, ctx.extra.get("_eager", False))
+    mo_all = ctx.model("LocT", [l for l, _ in lines])
+    mo = [m for m, (_, keep) in zip(mo_all, lines) if keep]
     k = 0
     for case, out in batch:
         for i, r in enumerate(out):
@@ -541,7 +551,9 @@ def run(ctx):
     router_mod.Timer = _NoTimer
     try:
         with rs.VClock(1_700_000_000_000) as clock:
-            ctx.extra["variant"] = {"C08-KF1": "lazy expiry (code as is)" if detect_lazy(clock) else "eager expiry (repaired)"}
+            lazy = detect_lazy(clock)
+            ctx.extra["variant"] = {"C08-KF1": "lazy expiry (code as is)" if lazy else "eager expiry (repaired)"}
+            ctx.extra["_eager"] = not lazy
             for name, c in corpus("C08"):
                 if c.get("kind") == "hist":
                     check_case(ctx, c, clock)
@@ -551,14 +563,15 @@ def run(ctx):
                         ctx.violation(f"corpus order case {name}", c)
                     ctx.cover("corpus_cases")
             check_order(ctx)
-            n = ctx.scale(300, 12000)
+            n = ctx.scale(300, 20000)
             for i in range(n):
-                case = gen_history(ctx.rng, ctx.rng.randrange(5, ctx.scale(60, 300)))
+                case = gen_history(ctx.rng, ctx.rng.randrange(5, ctx.scale(60, 150)))
                 check_case(ctx, case, clock)
                 if i == 0:
                     ctx.sample("history", {"self": case["self"], "lifetime_s": case["lifetime_s"], "ops": case["ops"][:6]})
             flush_model(ctx)
     finally:
+        ctx.extra.pop("_eager", None)
         router_mod.Timer = threading.Timer
 
 
